@@ -124,6 +124,9 @@ func WorldSteps() []Step {
 		DutchAuctionParam: &dutch, IsEnglishActivated: false, KeeeperIncentive: d("0.1")}))
 	s = append(s, cfgStep("cfg.aucv2.params", auctionsv2types.AuctionParams{AuctionDurationSeconds: 3600, Step: d("0.1"), WithdrawalFee: d("0.0"), ClosingFee: d("0.0"),
 		MinUsdValueLeft: 100000, BidFactor: d("0.1"), LiquidationPenalty: d("0.1"), AuctionBonus: d("0.0")}))
+	s = append(s, cfgStep("cfg.liqv1.whitelist", uint64(AppHarbor))) // V1 liquidation stays reachable through its messages
+	s = append(s, cfgStep("cfg.aucv1.params", bindings.MsgAddAuctionParams{AppID: AppHarbor, AuctionDurationSeconds: 3600, Buffer: d("1.2"), Cusp: d("0.6"), Step: 1,
+		PriceFunctionType: 1, SurplusID: 1, DebtID: 2, DutchID: 3, BidDurationSeconds: 3600}))
 	s = append(s, cfgStep("cfg.esm.params", bindings.MsgAddESMTriggerParams{AppID: AppHarbor, TargetValue: sdk.NewCoin("uharbor", sdk.NewInt(500_000_000_000)),
 		CoolOffPeriod: 3600, AssetID: []uint64{A2, A4, A1}, Rates: []uint64{2000000, 2000000, 2000000}}))
 	return s
